@@ -2,7 +2,7 @@ import DesperProofs.Lemmas.WorldProcFrame
 namespace Desper.World
 open Desper
 
-theorem removeProcessor_spec (U : Universe) (s : St) (t : Ty) :
+theorem removeProcessor_spec (U : Universe) [U.NoReenter] (s : St) (t : Ty) :
     ((visit U t).find? (fun st => (Dict.get? s.procs st).isSome) = none ∧
         removeProcessor U s t = (s, .ok, none)) ∨
     (∃ st p, (visit U t).find? (fun st => (Dict.get? s.procs st).isSome) = some st ∧
@@ -53,14 +53,14 @@ theorem pinv_dropProc {U : Universe} {s : St} (h : PInv U s) (st : Ty) : PInv U 
       · rintro ⟨⟨h1, _⟩, h2⟩; exact ⟨h1, h2⟩
   · exact h.nodup.sublist (List.filter_sublist)
 
-theorem pinv_removeProcessor {U : Universe} {s : St} (h : PInv U s) (t : Ty) :
+theorem pinv_removeProcessor {U : Universe} [U.NoReenter] {s : St} (h : PInv U s) (t : Ty) :
     PInv U (removeProcessor U s t).1 := by
   rcases removeProcessor_spec U s t with ⟨_, heq⟩ | ⟨st, p, _, _, _, hsame⟩
   · rw [heq]; exact h
   · exact pinv_sameTables (pinv_dropProc h st) hsame
 
 /-- after `remove_processor(T)` for an exact type that is present, no processor of that type is left -/
-theorem removeProcessor_exact (U : Universe) {s : St} (h : PInv U s) (t : Ty) (p : Obj)
+theorem removeProcessor_exact (U : Universe) [U.NoReenter] {s : St} (h : PInv U s) (t : Ty) (p : Obj)
     (hp : Dict.get? s.procs t = some p) :
     Dict.get? (removeProcessor U s t).1.procs t = none ∧
     ∀ q, q ∈ (removeProcessor U s t).1.sorted → tyOf U q ≠ t := by
@@ -133,7 +133,7 @@ theorem pinv_insertProc {U : Universe} {s : St} (h : PInv U s) (p : Obj)
       · intro e; subst e; exact hpn (List.mem_of_mem_take ha)
       · exact hnd.2.2 a ha b hb
 
-theorem pinv_addProcessor {U : Universe} {s : St} (h : PInv U s) (p : Obj) (prio? : Option Int) :
+theorem pinv_addProcessor {U : Universe} [U.NoReenter] {s : St} (h : PInv U s) (p : Obj) (prio? : Option Int) :
     PInv U (addProcessor U s p prio?).1 := by
   unfold addProcessor
   simp only
@@ -178,7 +178,7 @@ open Desper
 theorem pinv_sameProcs {U : Universe} {s s' : St} (h : PInv U s) (t : SameProcs s s') : PInv U s' :=
   pinv_of_tables h t.procs t.sorted t.prio
 
-theorem deleteAll_procs (U : Universe) (s : St) (es : List Ent) : SameProcs s (deleteAll U s es).1 := by
+theorem deleteAll_procs (U : Universe) [U.NoReenter] (s : St) (es : List Ent) : SameProcs s (deleteAll U s es).1 := by
   induction es generalizing s with
   | nil => exact .refl s
   | cons e es ih =>
@@ -191,7 +191,7 @@ theorem deleteAll_procs (U : Universe) (s : St) (es : List Ent) : SameProcs s (d
       · exact h1.trans (ih s')
       all_goals exact h1
 
-theorem pinv_removeProcs {U : Universe} {s : St} (h : PInv U s) (ps : List Obj) :
+theorem pinv_removeProcs {U : Universe} [U.NoReenter] {s : St} (h : PInv U s) (ps : List Obj) :
     PInv U (removeProcs U s ps).1 := by
   induction ps generalizing s with
   | nil => exact h
@@ -206,7 +206,7 @@ theorem pinv_removeProcs {U : Universe} {s : St} (h : PInv U s) (ps : List Obj) 
       · exact ih h1
       all_goals exact h1
 
-theorem pinv_clear {U : Universe} {s : St} (h : PInv U s) : PInv U (clear U s).1 := by
+theorem pinv_clear {U : Universe} [U.NoReenter] {s : St} (h : PInv U s) : PInv U (clear U s).1 := by
   unfold clear
   have h1 := pinv_sameProcs h (deleteAll_procs U s (Dict.keys s.ents))
   cases hx : deleteAll U s (Dict.keys s.ents) with
@@ -223,7 +223,7 @@ theorem pinv_clear {U : Universe} {s : St} (h : PInv U s) : PInv U (clear U s).1
         all_goals exact h3
     all_goals exact h1
 
-theorem pinv_step {U : Universe} {s : St} (h : PInv U s) (op : Op) : PInv U (step U s op).1 := by
+theorem pinv_step {U : Universe} [U.NoReenter] {s : St} (h : PInv U s) (op : Op) : PInv U (step U s op).1 := by
   cases op with
   | create id? cs => exact pinv_sameProcs h (createEntity_procs U s id? cs)
   | add e c => exact pinv_sameProcs h (addComponent_procs U s e c)
@@ -239,7 +239,7 @@ theorem pinv_step {U : Universe} {s : St} (h : PInv U s) (op : Op) : PInv U (ste
 theorem pinv_init (U : Universe) (hints : List (List Ent)) : PInv U { sweepHints := hints } :=
   ⟨List.Pairwise.nil, by intro t p; simp, List.nodup_nil⟩
 
-theorem pinv_run {U : Universe} {s : St} (h : PInv U s) (ops : List Op) : PInv U (run U s ops) := by
+theorem pinv_run {U : Universe} [U.NoReenter] {s : St} (h : PInv U s) (ops : List Op) : PInv U (run U s ops) := by
   induction ops generalizing s with
   | nil => exact h
   | cons op ops ih => exact ih (pinv_step h op)
